@@ -210,7 +210,15 @@ func c08b(c *Ctx) {
 			}
 			if f["Script"] == "" || f["Script"] == "nil" {
 				// label form: name = the identifier token's literal
-				c.Check(strings.HasSuffix(f["Name"], ".Literal"), "binding/"+kind+"/label-form", pos, "':' form refers to the written label", kind+" label-form entry name is "+pretty(f["Name"]))
+				okLit := strings.HasSuffix(f["Name"], ".Literal")
+				if nv := fieldValue(a, "Name", usePt); !okLit && nv != nil {
+					// the label read by a helper: every alternative it returns is a token's literal
+					okLit = true
+					for _, dl := range c.deepLeaves(fn, nv, 2) {
+						okLit = okLit && strings.HasSuffix(dl.term, ".Literal")
+					}
+				}
+				c.Check(okLit, "binding/"+kind+"/label-form", pos, "':' form refers to the written label", kind+" label-form entry name is "+pretty(f["Name"]))
 				return
 			}
 			nInline++
